@@ -287,6 +287,9 @@ pub struct Case {
     /// the parent waits at the `fmt.spawned` sync point so that the child has finished before the write
     #[serde(default)]
     pub fmt_late: bool,
+    /// operation sequence over the generated API to execute on the compiled module (C04; used by the probe generator only)
+    #[serde(default, skip_serializing_if = "Option::is_none")]
+    pub ops: Option<serde_json::Value>,
     /// "small" / "large": program text below / above the OS pipe buffer (C19)
     #[serde(default, skip_serializing_if = "Option::is_none")]
     pub size_class: Option<String>,
